@@ -46,6 +46,11 @@ TRUSTED_BASE = [
     "are parameters of the model (objects appear as parsed headers + opaque value ids; C01/C03 cover them)",
     "Lean twin of the writer (Spec/XrefWrite.lean): the harness checks Python writer bytes = Lean writer bytes for "
     "every table text and xref-stream payload, so the round-trip theorems speak about the bytes pdfminer read",
+    "structural Lean file writer (Spec/XrefHist.lean: positions from gaps and lengths, entry list per (sub-)revision, "
+    "history, trailer chain, tail): Rep / chain / SecLists are DERIVED for its outputs (C02_written_rep, C02_chain, "
+    "C02_table_lists, C02_stream_lists, C02_end_to_end); per file the harness checks that the Python writer's file has "
+    "exactly this structure (q.written, q.chain, q.tablelists, q.streamlists, q.tail); the step plan -> bytes of object "
+    "bodies and trailer dictionaries stays with the Python writer",
     "zlib for Flate on xref/object streams",
 ]
 ASSUMPTIONS = [
@@ -71,14 +76,34 @@ STATEMENT_STATUS: Dict[str, str] = {
     "C02_trailer_line": "proved (round 2)",
     "C02_stream_load / C02_stream_load_default": "proved (round 2): PDFXRefStream.load + get_pos + get_objids end to end incl. /Index default",
     "C02_chain_order": "proved (round 2): table -> XRefStm -> Prev, circular Prev not followed",
+    "C02_chain": "proved (round 6): read_xref_from over a chain of ANY number of plain / hybrid revisions returns the sections newest first "
+                 "(table before its XRefStm stream) and visits exactly their positions",
+    "C02_chain_checked": "proved (round 6): same with the executable hypothesis chainOf evaluated per file (q.chain)",
+    "C02_table_lists": "proved (round 6): SecLists derived for classic tables from the bytes read (any subsections holding the same pairs "
+                       "as the writer's entry list); hypothesis sameAssocB evaluated per table (q.tablelists)",
+    "C02_stream_lists": "proved (round 6): SecLists derived for cross-reference streams (any non-overlapping /Index ranges, widths, rows); "
+                        "hypothesis streamListsB evaluated per stream (q.streamlists)",
     "C02_table_represents / C02_stream_represents": "proved (round 2): SecRep follows from what the writer wrote",
     "C02_row_types / C02_inuse_types / C02_objstm_index / C02_defaults / C02_literals":
         "proved (round 2) about definitions REGENERATED from the Python source (Gen/Xref.lean)",
+    "C02_row_layout": "proved (round 6) about REGENERATED row addressing (entlen, offset = entlen*index, data/field slices, "
+                      "/Index walk: range test, index += on hit/miss, start value) of get_pos/get_objids/load",
+    "C02_written_rep": "proved (round 6): Rep DERIVED for every output of the Lean file writer (any (sub-)revisions, interleaved hybrid "
+                       "parts, gaps/lengths, object-stream members); per file only the writer twin (q.written) and WFile.ok are evaluated",
+    "C02_written_newest_wins": "proved (round 6): newest definition wins end to end on the writer's output",
+    "C02_table_entry_layout": "proved (round 6) about REGENERATED entry-line handling of PDFXRef.load (tuple unpacking order, stored tuple, "
+                              "range(start, start + nobjs))",
+    "C02_end_to_end": "proved (round 6): open (find_xref with any buffer size + whole trailer chain) + getobj on a file laid out by the Lean "
+                      "writers = newest revision's value, for every object number",
     "C02_table_fuel / C02_fallback_fuel": "proved (round 2): loops terminate within one iteration per byte",
     "C02_fallback": "proved (round 2): body scan offsets = true offsets; hypothesis ItemsOK checked per damaged file by itemsOKb",
     "C02_cue_header": "proved (round 2): PDFOBJ_CUE matcher accepts every rendered `n g obj` header",
     "C02_revreadlines_bufsize": "proved (all b >= 1, all byte strings)",
     "C02_startxref_bufsize": "proved (corollary)",
+    "C02_find_xref": "proved (round 6): find_xref returns the first non-blank line after the LAST startxref line, any bytes before, any buffer size",
+    "C02_find_xref_none": "proved (round 6): no startxref line -> PDFNoValidXRef",
+    "C02_find_xref_tail / C02_find_xref_written": "proved (round 6): every tail layout of the Lean tail writer (blanks, blank lines, EOL style, "
+                                                  "0..k final EOLs) yields exactly the offset written; writer bytes compared per file (q.tail)",
     "C02_damaged_cex": "proved counter-example (open finding wellformed-but-wrong-xref-no-rescan)",
     "C02_damaged_partial": "partial: the damaged-file clause holds when the cross-reference data that parses is right; "
                            "a parsable but wrong table is never rebuilt (open finding)",
@@ -777,6 +802,41 @@ def lean_setup_lines(data: bytes, layout: Dict[str, Any], revs: List[CW.Rev]) ->
     return lines
 
 
+def written_plan_lines(layout: Dict[str, Any], revs: List[CW.Rev]) -> List[str]:
+    """The file as a plan for the Lean structural writer (Spec/XrefHist.lean): trailers of the
+    (sub-)revisions oldest first, the body objects in file order as (gap, length) — never absolute
+    positions — tagged with the (sub-)revision that lists them, and the object-stream members."""
+    lines: List[str] = []
+    sub_of: Dict[Tuple[int, int], int] = {}
+    members: List[str] = []
+    j = 0
+    for sec in layout["sections"]:
+        k = sec["rev"]
+        rev = revs[k]
+        direct = {o["n"] for o in layout["objects"] if o["rev"] == k}
+        for part in reversed(sec["parts"]):
+            part["_sub"] = j
+            lines.append(f"wtr {rev.root} {opt(rev.info)}")
+            if part["kind"] == "table":
+                for e in part["entries"]:
+                    if e[3] == "n":
+                        sub_of[(k, e[0])] = j
+            else:
+                for r in part["rows"]:
+                    if r[1] == 1 or (r[1] == 2 and r[0] in direct):
+                        sub_of[(k, r[0])] = j
+                    elif r[1] == 2:
+                        members.append(f"wobj m {j} {r[0]} p{lean_id(canon_pdf(rev.defs[r[0]]))} {r[2]} {r[3]}")
+            j += 1
+    cur = 0
+    for o in sorted(layout["objects"], key=lambda o: o["pos"]):
+        sub = sub_of.get((o["rev"], o["n"]), 999999)
+        lines.append(f"wobj d {sub} {o['n']} {lean_val(o)} {o['pos'] - cur} {o['end'] - o['pos']} {o['gen']}")
+        cur = o["end"]
+    return lines + members
+
+
+
 def to_lean_res(canon: str, containers: Dict[str, str]) -> str:
     """Implementation / Python-spec answer in the driver's output vocabulary."""
     if canon.startswith("E:"):
@@ -812,7 +872,7 @@ def tie_case(ctx: C.Ctx, case: Dict[str, Any], data: bytes, layout: Dict[str, An
         return
     containers = {canon_pdf(o["val"]): 1 for o in layout["objects"] if o["kind"] == "objstm"}
     qs = csv(queries)
-    lines = lean_setup_lines(data, layout, revs)
+    lines = lean_setup_lines(data, layout, revs) + written_plan_lines(layout, revs)
     nsetup = len(lines)
     bound = layout["maxn"] + 3
     qlines = ["q.open 4096", "q.sections", "q.rootinfo", f"q.queries 0 {qs}", f"q.queries 1 {qs}",
@@ -826,6 +886,8 @@ def tie_case(ctx: C.Ctx, case: Dict[str, Any], data: bytes, layout: Dict[str, An
     eol_name = {"\n": "lf", "\r\n": "crlf", "\r": "cr"}[case["eol"]]
     ee_name = {" \n": "splf", "\r\n": "crlf", " \r": "spcr"}[case["entry_eol"]]
     twins = []
+    tlists: List[str] = []
+    slists: List[str] = []
     for sec in layout["sections"]:
         for part in sec["parts"]:
             if part["kind"] == "table":
@@ -836,10 +898,22 @@ def tie_case(ctx: C.Ctx, case: Dict[str, Any], data: bytes, layout: Dict[str, An
                                                  ",".join("%d/%d/%s" % ents[n][1:4] for n in range(s0, s0 + c0))))
                 q = f"q.render {eol_name} {ee_name} {';'.join(subs) if subs else '-'}"
                 twins.append((q, C.hx(data[part["after_kw"] + len(case["eol"]):part["trailer_at"]])))
+                tlists.append(f"q.tablelists {part['_sub']} {';'.join(subs) if subs else '-'}")
             else:
                 q = "q.encrows %s %s" % (csv(part["w"]), ",".join("%d/%d/%d" % r[1:4] for r in part["rows"]) or "-")
                 twins.append((q, C.hx(part["data"])))
+                ia = part["index"] if part["index"] is not None else [0, part["size"]]
+                slists.append("q.streamlists %d %s %s" % (part["_sub"], csv(ia),
+                                                          ",".join("%d/%d/%d" % r[1:4] for r in part["rows"]) or "-"))
     qlines += [q for q, _ in twins]
+    # the tail of the file (startxref / offset / %%EOF) as the Lean writer renders it: C02_find_xref_written
+    xp = layout["startxref"]
+    qtail = f"q.tail {case.get('tail', 'normal')} {eol_name} {len(str(xp))} {xp}"
+    qlines.append(qtail)
+    qwritten = f"q.written 0 {bound}"
+    qlines.append(qwritten)
+    qlines.append("q.chain")
+    qlines += tlists + slists
     out = ctx.driver.ask(lines + qlines)
     inp = {"kind": "history", "case": case, "queries": queries}
     if any(o != "ok" for o in out[:nsetup]):
@@ -850,6 +924,33 @@ def tie_case(ctx: C.Ctx, case: Dict[str, Any], data: bytes, layout: Dict[str, An
         ctx.branch("twin:" + q.split(" ")[0])
         if r[q] != want:
             ctx.disagree("writer-twin " + q.split(" ")[0], inp, want[:200], r[q][:200])
+    ctx.branch("twin:q.tail:" + case.get("tail", "normal") + ":" + eol_name)
+    thex, _, tfits = r[qtail].partition(" ")
+    if tfits != "true" or not data.endswith(bytes.fromhex(thex if thex != "-" else "")) \
+            or data.rfind(b"startxref") != len(data) - len(thex) // 2:
+        ctx.disagree("writer-twin q.tail", inp, C.hx(data[-60:]), r[qtail][:200])
+    # the Lean FILE writer (C02_written_rep / C02_written_newest_wins): side conditions hold, and its store,
+    # entry lists and history are those of this file
+    special = any(p.get("index_overshoot") or p.get("self_stm") for p in case["plans"])
+    ctx.branch("twin:q.written:" + r[qwritten].replace(" ", ",") + (":index-overshoot/self-stm" if special else ""))
+    if r[qwritten] != "true true true true" and not special:
+        ctx.disagree("writer-twin q.written", inp, "true true true true", r[qwritten])
+    # hypothesis of C02_table_lists: every classic table holds the same (number, entry) pairs as the Lean writer's list
+    for q in tlists:
+        ctx.branch("hyp:tablelists:" + r[q])
+        if r[q] != "true":
+            ctx.disagree("q.tablelists", inp, "true", r[q])
+    # hypotheses of C02_stream_lists: ranges disjoint, in-use rows = the Lean writer's entry list, enough rows
+    for q in slists:
+        ctx.branch("hyp:streamlists:" + r[q].replace(" ", ",") + (":index-overshoot/self-stm" if special else ""))
+        if r[q] != "true true" and not special:
+            ctx.disagree("q.streamlists", inp, "true true", r[q])
+    # hypothesis of C02_chain_checked: the file's sections form a chain of plain / hybrid revisions (circular /Prev of the
+    # oldest revision included)
+    selfprev = any(p.get("self_prev") for p in case["plans"])
+    ctx.branch("hyp:chain:" + r["q.chain"].replace(" ", ",") + (":self-prev" if selfprev else ""))
+    if r["q.chain"] != "true true true":
+        ctx.disagree("q.chain", inp, "true true true", r["q.chain"])
     try:
         with Watchdog(30.0):
             _tie_compare(ctx, inp, data, layout, queries, exp, bufs, r, qs, bound, tparts, containers)
